@@ -165,3 +165,56 @@ class LoadFamily:
                     if t != 7000 + i:
                         out.append(V('C13', 'foreign-value', tag, f"{pid} ended with t={t}, its own value is {7000 + i}", scenario=sc['id']))
         return out
+
+
+class RestoreBatchFamily:
+    """several processes of ONE model started with the same inputs and without an explicit pid (their stored model texts are
+    byte-identical), all forgotten by the cache; the end of another process makes the engine restore them from the store
+    in one batch; then each of them runs a node that generates acts at run time.  Each process must behave as if it
+    were alone: its own generated acts, nobody else's"""
+    name = 'restorebatch'
+
+    def gen(self, rng, idx, opts):
+        gen_kind = rng.choice([PAR, SEQ, 'acts.core.block', 'setup'])
+        lst = ['u', 'v', 'w'][:rng.randint(2, 3)]
+        if gen_kind == 'acts.core.block':
+            g = {'id': 'g1', 'uses': gen_kind, 'params': {'mode': rng.choice(['parallel', 'sequence']), 'acts': [{'uses': IRQ, 'key': 'gk'} for _ in lst]}}
+            s1 = {'id': 's1', 'acts': [g]}
+        elif gen_kind == 'setup':
+            s1 = {'id': 's1', 'setup': [{'uses': MSG, 'key': 'gk', 'on': 'created'} for _ in lst], 'acts': [{'id': 'a1', 'uses': IRQ, 'key': 'k1'}]}
+        else:
+            s1 = {'id': 's1', 'acts': [{'id': 'g1', 'uses': gen_kind, 'params': {'in': lst, 'acts': [{'uses': IRQ, 'key': 'gk'}]}}]}
+        wf = {'id': 'mg', 'inputs': {'a': 1}, 'steps': [{'id': 's0', 'acts': [{'id': 'a0', 'uses': IRQ, 'key': 'k0'}]}, s1, {'id': 's2', 'acts': [{'id': 'a2', 'uses': IRQ, 'key': 'k2'}]}]}
+        tiny = {'id': 'mt', 'steps': [{'id': 'st', 'acts': [{'id': 'at', 'uses': MSG, 'key': 'mt'}]}]}
+        n = rng.randint(2, 4)
+        same = rng.random() < 0.7          # the same inputs for all (identical stored texts) or different ones
+        items = [{'mid': 'mg', 'vars': {'a': 1 if same else i}} for i in range(n)]
+        ops = [{'op': 'starts', 'items': items, 'threads': 1}, {'op': 'quiesce'}, {'op': 'evict'},
+               {'op': 'start', 'mid': 'mt', 'vars': {'pid': 'pt'}}, {'op': 'quiesce'}, {'op': 'run'}, {'op': 'snapshot', 'level': 'rows'}]
+        store = opts.get('store') or rng.choice(['mem', 'mem', 'sqlite'])
+        rt = rng.choice([{'flavor': 'current'}, {'flavor': 'current', 'chaos': {'max_yields': 2, 'seed': rng.randrange(1, 1 << 40)}}, {'flavor': 'multi', 'workers': 2, 'chaos': {'max_yields': 2, 'seed': rng.randrange(1, 1 << 40)}}])
+        sc = {'id': '', 'family': 'restorebatch', 'sched': rt['flavor'] + '-' + store, 'seed': rng.randrange(1 << 30), 'runtime': rt, 'engine': {'store': store, 'keep_processes': True, 'cache_cap': rng.choice([1024, 8])},
+              'models': [json.dumps(wf), json.dumps(tiny)], 'responder': {'mode': 'quiescent', 'order': rng.choice(['fifo', 'lifo', 'seeded']), 'rules': [{'match': {'uses': IRQ}, 'action': 'next', 'times': 1000}]}, 'ops': ops}
+        if store == 'sqlite':
+            sc['watchdog_ms'] = 60000
+        return {'scenarios': [sc], 'meta': {'kind': gen_kind, 'n': n, 'len': len(lst), 'same': same}, 'digest': digest([wf, n, same, store]), 'nontrivial': True}
+
+    def judge(self, c, opts, obs):
+        out = []
+        h, sc, m = c['hist'][0], c['scenarios'][0], c['meta']
+        sid = sc['id']
+        res = [o for o in h.ops if o['op'] == 'starts'][0]['res']['results']
+        pids = [r['pid'] for r in res if r['ok']]
+        obs[f"c13.restore-batches:{m['kind']}:{'identical-texts' if m['same'] else 'different-inputs'}"] += 1
+        if len(pids) != m['n']:
+            out.append(V('C13', 'start-refused', 'restore', f"{m['n'] - len(pids)} of {m['n']} starts without an explicit pid failed: {[r.get('err') for r in res if not r['ok']]}", scenario=sid))
+        tag = f"{m['kind'].split('.')[-1]}:{'identical-texts' if m['same'] else 'different-inputs'}"
+        for pid in pids:
+            obs['c13.restored-processes'] += 1
+            gk = [d for d in h.delivers if d['pid'] == pid and d['key'] == 'gk' and d['state'] == ('completed' if m['kind'] == 'setup' else 'created')]
+            if len(gk) != m['len']:
+                out.append(V('C13', 'differs-from-solo-run', f"generated-acts:{'more' if len(gk) > m['len'] else 'fewer'}:restored-in-one-batch:{tag}", f"process {pid} (one of {m['n']} restored together) got {len(gk)} generated acts, alone it gets {m['len']}", scenario=sid))
+            done = [e for e in h.cbs if e['pid'] == pid and e['what'] != 'start']
+            if [(e['what'], e['state']) for e in done] != [('complete', 'completed')]:
+                out.append(V('C13', 'differs-from-solo-run', f"terminal-event:restored-in-one-batch:{tag}", f"process {pid} (one of {m['n']} restored together) delivered {[(e['what'], e['state']) for e in done]}, alone it completes", scenario=sid))
+        return out
